@@ -161,8 +161,16 @@ func runHistory(rng *hx.Rng, meta *hx.Meta, flavour string, max, nops int, scrip
 		id := idOf(k)
 		c := p.capOf(k)
 		putCount[id]++
-		p.put(k)
 		observations = append(observations, obs{Kind: "put", ID: id, Cap: c})
+		func() {
+			defer func() {
+				if e := recover(); e != nil {
+					meta.Violate(hx.Violation{Property: "C19", What: fmt.Sprintf("Put of a buffer with capacity %d on New(%d) %s pool failed with a runtime fault: %v", c, max, flavour, e),
+						Signature: "put-fault", Replay: map[string]interface{}{"flavour": flavour, "max": max, "history": append([]obs{}, observations...)}})
+				}
+			}()
+			p.put(k)
+		}()
 		meta.Count("put_cap", hx.SizeBucket(c))
 	}
 	if script != nil { // replay mode: follow the recorded operations
@@ -201,6 +209,9 @@ func runHistory(rng *hx.Rng, meta *hx.Meta, flavour string, max, nops int, scrip
 			}
 			if rng.Chance(20) {
 				c = rng.Intn(1 << 17)
+			}
+			if rng.Chance(8) {
+				c = []int{0, 0, 1, 2}[rng.Intn(4)] // empty / tiny foreign buffers (&[]byte{}, new(bytes.Buffer))
 			}
 			doPut(p.foreign(c))
 		}
@@ -343,7 +354,8 @@ func main() {
 	maxes := []int{1, 2, 8, 32, 64, 100, 1000, 4096, 65536, 65536, 65536, 70000, 1 << 20}
 	var cases []string
 	// corpus first: the history that exposed the missing class check in Put
-	corpus := [][]obs{{{Kind: "put", Cap: 1500}, {Kind: "get", Size: 2000}}, {{Kind: "put", Cap: 3000}, {Kind: "get", Size: 4096}}}
+	corpus := [][]obs{{{Kind: "put", Cap: 1500}, {Kind: "get", Size: 2000}}, {{Kind: "put", Cap: 3000}, {Kind: "get", Size: 4096}},
+		{{Kind: "put", Cap: 0}, {Kind: "get", Size: 1}}, {{Kind: "put", Cap: 0}, {Kind: "get", Size: 1024}}}
 	cid := 0
 	emit := func(flavour string, max int, o []obs) {
 		xs := make([]string, len(o))
